@@ -336,7 +336,9 @@ class Replayer:
         self.stats = {"steps": 0, "snapshots": 0, "model_compares": 0, "ref_compares": 0, "handout_probes": 0,
                       "new_objects": 0}
         self._ref_cache = {}
+        self._ref_cat = None
         self._abs_all = None
+        self.pool = None
 
     # -- bookkeeping
     def _find(self, klass, hist, summary, abs_all=None, **detail):
@@ -370,10 +372,11 @@ class Replayer:
         root, chain = self.chain_of(hist, abs_objs, idx)
         key = (root, tuple((k, op["op"], tuple(op["arg"])) for k, op in chain))
         if key not in self._ref_cache:
-            pool = Pool(self.scenario)
-            o = pool.objs[root - 1]
+            if self._ref_cat is None:
+                self._ref_cat = Catalogue()
+            o = self._ref_cat.base(self.scenario)[root - 1]      # fresh base objects over the reference nodes
             for k, op in chain:
-                o = api_apply(pool.cat, op, o, k)
+                o = api_apply(self._ref_cat, op, o, k)
             self._ref_cache[key] = observe(o, run=self.runs)
             if len(self._ref_cache) > 200000:
                 self._ref_cache.clear()
@@ -450,9 +453,9 @@ class Replayer:
                                f"object #{idx + 1} created by {opkey(op)} differs from the object built from its own "
                                f"derivation chain alone: " + "; ".join(f"{ob}: {ref.get(ob)!r} vs {s.get(ob)!r}" for ob in d)[:600],
                                object=idx + 1, observables=d, reference="chain-only")
-            # handed-out containers of the new object and of the receiver
+            # handed-out containers of the new object (every object is probed once, when it is created)
             if self.handout:
-                clean = self._handout(pool, hist, op, [idx, op["tgt"] - 1]) and clean
+                clean = self._handout(pool, hist, op, [idx]) and clean
         return clean
 
     def _handout(self, pool, hist, op, idxs):
@@ -485,7 +488,7 @@ class Replayer:
     # -- linear replay of one history on fresh objects (also the re-execution of a witness)
     def linear(self, hist, objs_abs, lazy=False):
         """hist: list of ops; objs_abs: abstract object created by each op (None for observations)."""
-        pool = Pool(self.scenario, self.apply)
+        pool = self.pool = Pool(self.scenario, self.apply)
         abs_objs = list(self.base_abs)
         if not lazy:
             pool.snaps = [self._observe(o) for o in pool.objs]
